@@ -219,6 +219,8 @@ fn run_board(prop: Prop, tier: Tier) -> i32 {
         Tier::Quick => (2, ROOT_FENS.iter().take(20).map(|f| Pos::from_fen(f).unwrap()).collect(), 3),
         Tier::Thorough => (4, vec![Pos::startpos()], 5),
     };
+    let set_render = |quick: u64, thorough: u64| ctx.render_mod.store(if tier == Tier::Quick { quick } else { thorough }, std::sync::atomic::Ordering::Relaxed);
+    set_render(8, 4);
     let (s, t, tp) = reach(&roots, full_depth, &|p, _d| visit(&ctx, p));
     fams.push(json!({"family": format!("REACH({}) of all roots", full_depth), "roots": roots.len(), "states": s, "reference_transitions": t, "transposition_hits": tp, "secs": t0.elapsed().as_secs_f64()}));
     let t0 = Instant::now();
@@ -240,6 +242,13 @@ fn run_board(prop: Prop, tier: Tier) -> i32 {
     }
     let mut hash_obs = (0u64, 0u64);
     for f in list.iter() {
+        // 3-piece families: text compared on every eighth state (quick) / every state (thorough);
+        // 4-piece families (thorough only): every 64th
+        if f.len() > 2 * 64u64.pow(3) {
+            set_render(8, 64);
+        } else {
+            set_render(8, 1);
+        }
         let t0 = Instant::now();
         let n = for_family(f.as_ref(), &|p| visit(&ctx, p));
         fams.push(json!({"family": f.name(), "index_space": f.len(), "legal_members": n, "secs": t0.elapsed().as_secs_f64()}));
@@ -258,6 +267,7 @@ fn run_board(prop: Prop, tier: Tier) -> i32 {
         (Tier::Quick, Prop::C03) => [3, 1, 1],
         _ => [1, 1, 1],
     };
+    set_render(8, 2);
     for (i, f) in [&castle as &dyn Family, &ep, &promo].into_iter().enumerate() {
         let t0 = Instant::now();
         let sf = Strided(f, strides[i]);
@@ -266,6 +276,7 @@ fn run_board(prop: Prop, tier: Tier) -> i32 {
         fams.push(json!({"family": sf.name(), "index_space": sf.len(), "legal_members": n, "flipped_members": n2, "secs": t0.elapsed().as_secs_f64()}));
     }
 
+    set_render(8, 16);
     // EDGE5 (wrap-around geometry), a co-prime sub-lattice
     if matches!(prop, Prop::C01 | Prop::C02 | Prop::C03 | Prop::C05) {
         let t0 = Instant::now();
